@@ -14,7 +14,7 @@ import shutil
 import sys
 import tempfile
 
-from harness import common
+from harness import common, c07_gen
 from harness.common import Collector
 
 ID = "C07"
@@ -363,7 +363,11 @@ def evaluate(case, dyn=None, st=None):
     tag = "missing-edge-p2" if case.get("p2") else "missing-edge"
     by_kind = {}
     for e in sorted(primary_missing):
-        by_kind.setdefault(kind_of(kinds, e), []).append(e)
+        k, via = kind_of(kinds, e)
+        if case.get("p2") and k in c07_gen.OBJECT_KINDS:
+            # under --enable-p2 every call that needs a class or an instance fails alike: one root-cause family
+            k, via = "object-call", "*"
+        by_kind.setdefault((k, via), []).append(e)
     for (k, via), es in sorted(by_kind.items()):
         out.append(((ID, tag, k, via),
                     "dynamic call %s (kind %s, via %s%s) is in no stored path of call_paths_p3 (%d such edge(s) in this project)" % (
@@ -485,10 +489,14 @@ def gen_shard(arg):
     from harness import c07_gen, lianrun
     col = Collector()
 
+    p2_no_classes = any(e.get("status") == "open" and list(e.get("signature", []))[1:3] == ["missing-edge-p2", "object-call"]
+                        for e in common.load_known(ID))
+
     @st.composite
     def cases(draw):
-        case = draw(c07_gen.projects(avoid=avoid, extended=extended))
-        case["p2"] = bool(p2_pct) and draw(st.integers(0, 99)) < p2_pct
+        p2 = bool(p2_pct) and draw(st.integers(0, 99)) < p2_pct
+        case = draw(c07_gen.projects(avoid=avoid, extended=extended, no_classes=p2 and p2_no_classes))
+        case["p2"] = p2
         return case
 
     @hypothesis.seed(seed)
